@@ -6,6 +6,9 @@ import json, os, sys
 from vlib import Check, standard_proof_phase, correspond, ddmin
 
 PID = 'C18'
+MANIFEST = dict(
+    text='Machine-checked refinement (Coq): for every capacity and every history of store/flush/re-init the ring buffer emits exactly the most recent min(cap, stored) events, oldest first, once, with no out-of-bounds access (C18_bt_refines + spec lemmas; refutations of the two unfixed configurations). Tied to BacktraceStorage by differential runs of the extracted model against the real class plus a direct property monitor. The backend-level clauses (held back when logged, replay right after the trigger) are covered by the M-BE checks when present; see DESIGN section 5 C18.',
+    design='5 C18', technique='Coq refinement proof (ring -> most-recent-N spec) + extracted-model/implementation differential correspondence')
 TRUSTED = [
     'Coq 8.16.1 kernel (coqc, vm_compute for the refutation examples; no native_compute)',
     'axioms: none (every theorem Closed under the global context)',
